@@ -29,14 +29,35 @@ var Prop = &fw.Prop{
 	NewReal:     newReal,
 	Monitor:     monitor,
 	Sigs:        sigs,
-	FixedLayout: false,
+	FixedLayout: true, // the shrinker below removes whole blocks first (one run costs ~0.3 s)
+	Shrink:      shrinkCase,
+}
+
+// shrinkCase proposes the script with one block removed: halves, quarters, …, single lines.  The
+// first line (init) always stays.
+func shrinkCase(c fw.Case) []fw.Case {
+	var out []fw.Case
+	n := len(c.Script)
+	for size := n / 2; size >= 1; size /= 2 {
+		for from := 1; from+size <= n; from += size {
+			s := append(append([]string{}, c.Script[:from]...), c.Script[from+size:]...)
+			out = append(out, fw.Case{Script: s, Tags: c.Tags, Nontrivial: c.Nontrivial, Origin: c.Origin})
+		}
+		if len(out) > 400 {
+			break
+		}
+	}
+	return out
 }
 
 // ---------------------------------------------------------------------------------------------
 // generator
 
+// path universes: one path; flat; nested and schema-consistent (values only on leaves, containers
+// are only deleted), with /xy a textual but not an element-wise extension of /x
 var flatPaths = []string{"/a", "/b", "/c"}
-var nestedPaths = []string{"/a", "/a/b", "/a/b/c", "/ab", "/d"}
+var nestedLeaves = []string{"/x/y/z", "/x/y/w", "/x/v", "/xy"}
+var nestedContainers = []string{"/x", "/x/y"}
 var devAnswers = []string{"unknown", "canceled", "invalid", "deadline", "notfound", "exists", "denied", "exhausted",
 	"precondition", "aborted", "range", "unimplemented", "internal", "unavailable", "dataloss", "unauthenticated"}
 
@@ -59,6 +80,7 @@ type genState struct {
 	nontr  bool
 	paths  []string
 	single bool
+	nested bool
 	relSeq int
 }
 
@@ -78,6 +100,10 @@ func (g *genState) appendTx() {
 	var toks []string
 	for k := 0; k < n; k++ {
 		p := g.r.Pick(g.paths)
+		forceDel := false
+		if g.nested && g.r.Chance(1, 4) {
+			p, forceDel = g.r.Pick(nestedContainers), true
+		}
 		// one transaction never holds two paths of which one is a textual prefix of the other: the
 		// real outcome would depend on Go map iteration order (delete /a + set /a/b in one request)
 		clash := false
@@ -90,7 +116,7 @@ func (g *genState) appendTx() {
 			continue
 		}
 		used[p] = true
-		del := g.r.Chance(1, 5)
+		del := forceDel || g.r.Chance(1, 5)
 		pvIdx := idx
 		if g.r.Chance(1, 25) {
 			pvIdx = 0
@@ -231,22 +257,25 @@ func (g *genState) drain() {
 
 func gen(r *rng.R, tier string) fw.Case {
 	g := &genState{r: r, rels: map[string]bool{}, conns: map[string]bool{}, tags: map[string]bool{}}
-	seed := !r.Chance(1, 12)
-	if !seed {
-		g.tag("seed=0")
+	seed := 1
+	if r.Chance(1, 12) {
+		seed = 0
+	} else if r.Chance(1, 4) {
+		seed = 2
 	}
+	g.tag(fmt.Sprintf("seed=%d", seed))
 	switch r.Intn(4) {
 	case 0:
 		g.paths, g.single = []string{"/a"}, true
 		g.tag("paths-single")
 	case 1:
-		g.paths = nestedPaths
+		g.paths, g.nested = nestedLeaves, true
 		g.tag("paths-nested")
 	default:
 		g.paths = flatPaths
 		g.tag("paths-flat")
 	}
-	g.add("v3.init seed=%d", b2i(seed))
+	g.add("v3.init seed=%d", seed)
 	// usually start with a healthy topology
 	if r.Chance(3, 4) {
 		g.add("v3.rel add r0")
@@ -291,13 +320,6 @@ func gen(r *rng.R, tier string) fw.Case {
 		tags = append(tags, t)
 	}
 	return fw.Case{Script: g.lines, Tags: tags, Nontrivial: g.nontr}
-}
-
-func b2i(b bool) int {
-	if b {
-		return 1
-	}
-	return 0
 }
 
 func enumerate(tier string) []fw.Case {
